@@ -592,6 +592,64 @@ def none_by_truthiness(model: Model, R: RuleResult, files: Set[str]) -> int:
     return n
 
 
+# ------------------------------------------------------------------------------------------------- IU: in-place on the user's output
+def inplace_on_user_output(model: Model, R: RuleResult, files: Set[str]) -> int:
+    """No in-place operation (`x.add_(..)`, `x *= ..`, `x[..] = ..`) targets the tensor a user-supplied callable returned.  The library
+    does not own that tensor: the callable may have returned one of its own parameters or a cached value (a constant integrand, a
+    module returning an attribute), which the in-place operation overwrites - the caller's object is modified and every later
+    evaluation sees the accumulated value."""
+    from ..flow import function_defs, origins
+    n = 0
+    for fi in model.all_functions():
+        if fi.module.relpath not in files:
+            continue
+        # callables supplied from outside: parameters (of this function or an enclosing one) that are called
+        params = set(fi.all_params())
+        p_ = fi.parent
+        while p_ is not None:
+            params |= set(p_.all_params())
+            p_ = p_.parent
+        called = {c.func.id for c in own_nodes(fi.node) if isinstance(c, ast.Call) and isinstance(c.func, ast.Name) and c.func.id in params}
+        if not called:
+            continue
+        defs = function_defs(fi.node)
+
+        # plain assignments `name = <expr>` only (an element store `buf[i] = f(x)` puts the user's tensor INTO the library's buffer: fine)
+        plain: Dict[str, list] = {}
+        for st_ in own_nodes(fi.node):
+            if isinstance(st_, ast.Assign) and len(st_.targets) == 1 and isinstance(st_.targets[0], ast.Name):
+                plain.setdefault(st_.targets[0].id, []).append(st_.value)
+
+        def direct(e) -> bool:
+            while isinstance(e, ast.Call) and isinstance(e.func, ast.Attribute) and e.func.attr in ("reshape", "view", "squeeze", "unsqueeze", "contiguous", "detach"):
+                e = e.func.value                    # views share the storage of what the callable returned
+            return isinstance(e, ast.Call) and isinstance(e.func, ast.Name) and e.func.id in called
+
+        def from_user(e, depth=0) -> bool:
+            if direct(e):
+                return True
+            if isinstance(e, ast.Name) and depth < 3 and e.id in plain and e.id not in params:
+                return all(from_user(d, depth + 1) for d in plain[e.id])
+            return False
+        for node in own_nodes(fi.node):
+            tgt = None
+            if isinstance(node, ast.Call) and isinstance(node.func, ast.Attribute) and node.func.attr.endswith("_") and not node.func.attr.startswith("_") \
+                    and node.func.attr not in ("requires_grad_",):
+                tgt = node.func.value
+            elif isinstance(node, ast.AugAssign):
+                tgt = node.target if isinstance(node.target, ast.Name) else (node.target.value if isinstance(node.target, ast.Subscript) else None)
+            elif isinstance(node, ast.Assign) and len(node.targets) == 1 and isinstance(node.targets[0], ast.Subscript):
+                tgt = node.targets[0].value
+            if tgt is None:
+                continue
+            n += 1
+            if from_user(tgt):
+                R.bad(fi, enclosing_stmt(node), "in-place operation on the tensor returned by the user's callable `%s`: the callable may have returned a tensor it "
+                      "keeps (a parameter, a constant, a cached value), which is overwritten here" % sorted(called)[0])
+    R.ok("anchor files", "%d in-place operation(s) examined in functions that call a user-supplied callable: none targets the callable's own output" % n)
+    return n
+
+
 # ------------------------------------------------------------------------------------------------- TG: tolerance-guarded formulas
 TOL_CALLS = ("allclose", "isclose")
 
@@ -703,6 +761,10 @@ def common_rules(model: Model, prop: str, tier: str) -> List[RuleResult]:
         out.append(R)
         R = RuleResult(prop, "NT", "optional parameters are resolved with `is None`, never by truthiness (anchor files)", min_instances=1)
         none_by_truthiness(model, R, files)
+        out.append(R)
+    if files:
+        R = RuleResult(prop, "IU", "no in-place operation on the tensor a user-supplied callable returned (anchor files)", min_instances=1)
+        inplace_on_user_output(model, R, files)
         out.append(R)
     if files:
         R = RuleResult(prop, "MT", "tensor constants built at import time state their dtype (anchor files)", min_instances=1)
